@@ -30,6 +30,8 @@ SPECS = [
          note='one energy bin: (QN, UN, dI, dQ, dU, dQN, dUN, cov, pval, conf); SIGNIF goes through scipy and is projected away'),
     Spec(K, 'xStokesAnalysis.calculate_mdp99', 'calculate_mdp99', ['mu', 'I', 'W2'], bools=['clip'], elementwise=True),
     Spec(K, 'xStokesAnalysis.calculate_n_eff', 'calculate_n_eff', ['counts', 'I', 'W2'], elementwise=True, note='array path (counts is an array)'),
+    Spec(K, 'xStokesAnalysis.calculate_n_eff', 'calculate_n_eff_scalar', ['counts', 'I', 'W2'], elementwise=True, consts={'__isinstance__': True},
+         note='scalar path (counts is a Python number, as in polarization_table: FRAC_W = N_EFF / COUNTS whatever I)'),
     Spec('ixpeobssim.binning.base', 'xBinnedFileBase._weighted_average', 'weighted_average', [], bools=['invert_w2'],
          consts={'default': 0.}, abstract={'self.__data_dict': 'a', 'other.__data_dict': 'b'}, elementwise=True,
          note='one bin of the summation of two binned files: a, a_2 = value and weight of self; b, b_2 = value and weight of other'),
